@@ -76,6 +76,22 @@ func main() {
 			os.Exit(1)
 		}
 		fmt.Print(p.GenRef())
+	case "gen-locals":
+		// run the quick rules of every property once (this records which
+		// functions anchor lemmas are about), then print their local definitions
+		p, err := core.Load(core.RepoDir(), nil, nil)
+		if err != nil {
+			fmt.Println(err)
+			os.Exit(1)
+		}
+		os.Setenv("VERIF_NO_EVIDENCE", "1")
+		for _, prop := range rules.Properties() {
+			func() {
+				defer func() { recover() }()
+				rules.Get(prop).Run(&rules.Ctx{Prog: p, Rep: core.NewReport(prop, "quick"), Tier: "quick", Primary: true})
+			}()
+		}
+		fmt.Print(rules.GenLocals(p))
 	case "gen-lemmas":
 		p, err := core.Load(core.RepoDir(), nil, nil)
 		if err != nil {
